@@ -35,6 +35,9 @@ type spec struct {
 	M        int    `json:"m"`         // number of such syscalls seen in the count run
 	Expect   string `json:"expect"`    // what the count run saw at index N (information only)
 	Why      string `json:"why"`       // all | boundary | sample
+	// Failed is set when the scenario does not even complete without any kill (count run
+	// and an unsupervised re-run both fail on a victim command): reported as a violation.
+	Failed string `json:"failed,omitempty"`
 }
 
 func init() {
@@ -265,7 +268,23 @@ func cases(run *vf.Run) ([]json.RawMessage, error) {
 	for i, j := range jobs {
 		r := results[i]
 		if r.err != nil {
-			return nil, r.err
+			// Is it the supervisor or litestream? Re-run the scenario unsupervised.
+			base := filepath.Join(run.Scratch, fmt.Sprintf("plain-%s-%s", j.sc.Name, j.cfg.Name))
+			var hist []string
+			w, _, perr := runScenario(j.sc, j.cfg, filepath.Join(base, "s"), filepath.Join(base, "w"), dataSeed(run.Seed, j.sc.Name), Launch{Mode: Plain},
+				preludeDir(run, j.sc.Name, j.cfg.Name), true, func(f string, a ...any) { hist = append(hist, fmt.Sprintf(f, a...)) })
+			if w != nil {
+				w.Close()
+			}
+			os.RemoveAll(base)
+			if perr == nil {
+				return nil, r.err // the scenario is fine without the supervisor: a harness problem
+			}
+			if len(hist) > 12 {
+				hist = hist[len(hist)-12:]
+			}
+			out = append(out, vf.Spec(spec{Scenario: j.sc.Name, Cfg: j.cfg.Name, Failed: fmt.Sprintf("%v (last steps: %s)", perr, strings.Join(hist, " | "))}))
+			continue
 		}
 		root := filepath.Join(run.Scratch, fmt.Sprintf("count-%s-%s", j.sc.Name, j.cfg.Name), "s")
 		m := len(r.log.Events)
@@ -370,6 +389,12 @@ func runCase(run *vf.Run, raw json.RawMessage, dir string) *vf.Result {
 	}
 	if err := EnsurePtsup(); err != nil {
 		res.HarnessErr = err.Error()
+		return res
+	}
+	if s.Failed != "" {
+		res.Evals = 1
+		res.Sig = "scenario-failed-" + s.Scenario + "-" + s.Cfg
+		res.Violate("scenario-fails-without-kill", "scenario %s/%s does not complete even when the litestream process is never killed (it is stopped and restarted cleanly between phases): %s", s.Scenario, s.Cfg, s.Failed)
 		return res
 	}
 	if s.Scenario == "S6" {
